@@ -45,3 +45,5 @@ MUTANTS.append(dict(name="sanitised-key-not-tested-against-declared-names", file
 MUTANTS.append(dict(name="registration-key-not-recorded-for-raw-name", file='core/parsing/schema_parser.py', expect="R2.15", old="            context.registered_keys_by_raw_name[schema_name] = registration_key\n", new=""))
 MUTANTS.append(dict(name="ref-lookup-bypasses-raw-name-index", file='core/parsing/schema_parser.py', expect="R2.15", old="    parsed_key = context.registered_keys_by_raw_name.get(ref_name, ref_name)\n", new="    parsed_key = ref_name\n"))
 MUTANTS.append(dict(name="ref-resolved-by-sanitised-name", file='core/parsing/schema_parser.py', expect="R2.10", old="    parsed_key = context.registered_keys_by_raw_name.get(ref_name, ref_name)\n", new="    parsed_key = NameSanitizer.sanitize_class_name(ref_name)\n"))
+MUTANTS.append(dict(name='name-fallback-merges-integer-and-number', file='types/resolvers/schema_resolver.py', expect='R2.11', old='            target_type = getattr(target_schema, "type", None)\n            is_other_kind = schema_type in ("string", "integer", "number", "boolean") and target_type != schema_type\n', new='            # (JSON has a single numeric kind: "integer" and "number" compare as the same kind)\n            target_type = getattr(target_schema, "type", None)\n            json_kind = {"integer": "number"}\n            is_other_kind = schema_type in ("string", "integer", "number", "boolean") and json_kind.get(\n                target_type, target_type\n            ) != json_kind.get(schema_type, schema_type)\n'))
+MUTANTS.append(dict(name='inline-enum-prefix-dropped-without-sibling-test', file='core/parsing/schema_parser.py', expect='R2.16', old='                    # e.g., Entry + entry_specific_role -> EntrySpecificRole (not EntryEntrySpecificRole),\n                    # unless a sibling property (Entry + specific_role) already owns that name\n                    if sanitized_prop_name.lower().startswith(parent_schema_name.lower()) and not any(\n                        f"{parent_schema_name}{NameSanitizer.sanitize_class_name(other)}" == sanitized_prop_name\n                        for other in properties_node\n                        if isinstance(other, str) and other and other != prop_name\n                    ):\n', new='                    # e.g., Entry + entry_specific_role -> EntrySpecificRole (not EntryEntrySpecificRole)\n                    if sanitized_prop_name.lower().startswith(parent_schema_name.lower()):\n'))
